@@ -376,6 +376,33 @@ func runAsm(m *model.Model, s *ob.Set) {
 		}
 		s.Check(why == "", R, "copy-order/"+hn, rel(t), "loads precede stores in every copy block", why)
 	}
+	// ---- A5c: def-before-use of registers and flags, per TEXT
+	for _, t := range f.texts {
+		bad, checked, unknown := asmDefUse(t)
+		if len(unknown) > 0 {
+			model.Fatal("ASM defuse: opcode(s) without a read/write signature: %s", strings.Join(unknown, ", "))
+		}
+		c := "defuse/" + t.name
+		if len(bad) == 0 {
+			s.Ok(R, c, rel(t), fmt.Sprintf("%d register/flag reads, each preceded by a write on every path from the entry", checked))
+		} else {
+			s.Bad(R, c, rel(t), bad[0], bad[1:]...)
+		}
+	}
+
+	// ---- A5d: dead register loads (informational)
+	for _, t := range f.texts {
+		bad, moves := asmDeadMoves(t)
+		c := "deadmove/" + t.name
+		if len(bad) == 0 {
+			s.Ok(R, c, rel(t), fmt.Sprintf("%d register loads, each read on some path before being overwritten", moves))
+		} else {
+			// a dead load does not by itself change what the kernel computes (a leftover is
+			// harmless), so this is recorded, not failed; defuse/ and lanes/ carry the verdicts
+			s.Note(R, c, rel(t), strings.Join(bad, "; "))
+		}
+	}
+
 	// ---- A6: inlined copies of div10W
 	{
 		ref := f.text("·div10W")
